@@ -93,6 +93,10 @@ func main() {
 			bad += runK(&keyF64, sp)
 		case "iface":
 			bad += runK(&keyAny, sp)
+		case "c128":
+			bad += runK(&keyC128, sp)
+		case "ck":
+			bad += runK(&keyCK, sp)
 		case "arr":
 			bad += runK(&keyArr, sp)
 		case "sk":
